@@ -405,7 +405,7 @@ def mmName : List Nat := "message_manager".toList.map (·.toNat)
     holds no id; the dynamic-id cursor stays inside its range -/
 structure MInvOn (P : Nat → Prop) (cfg : Cfg) (s : State) : Prop where
   distinct : (s.mods.map (·.uid)).Nodup
-  mgr : ∀ m0, s.find 0 = some m0 → m0.modId = 0 ∧ m0.name = mmName
+  mgr : ∀ m0, s.find 0 = some m0 → m0.modId = 0 ∧ m0.name = mmName ∧ m0.isLogger = false
   unconn : ∀ u m, P u → s.find u = some m → m.connected = false → m.modId = 0
   ndyn : maxDyn cfg = 0 ∨ s.nextDyn < maxDyn cfg
 
@@ -422,7 +422,7 @@ theorem minv_nest {P : Nat → Prop} {cfg : Cfg} {s s' : State} (h : MInvOn P cf
   refine ⟨n.uids.nodup h.distinct, fun m0 hm0 => ?_, fun u m' hp hm' hc => ?_, by rw [n.ndyn]; exact h.ndyn⟩
   · obtain ⟨m, hm, e⟩ := n.surv 0 m0 hm0 (ao' 0 m0 hm0)
     obtain ⟨e1, e2, _⟩ := core_more e
-    rw [e1, e2]; exact h.mgr m hm
+    rw [e1, e2, (core_fields e).2.2.1]; exact h.mgr m hm
   · obtain ⟨m, hm, e⟩ := n.surv u m' hm' (ao' u m' hm')
     obtain ⟨e1, _, e3⟩ := core_more e
     rw [e1]; exact h.unconn u m hp hm (by rw [← e3]; exact hc)
